@@ -50,13 +50,17 @@ func NewPair(target, query *Packed, hit dp.Hit, comp bool) (*Pair, error) {
 		strand = 1
 	}
 
-	return &Pair{
+	fp := &Pair{
 		A:      t,
 		B:      q,
 		Score:  hit.Score,
 		Error:  hit.Error,
 		Strand: strand,
-	}, nil
+	}
+	fp.A.Pair = fp
+	fp.B.Pair = fp
+
+	return fp, nil
 }
 
 // ExpandFeature converts a *gff.Feature containing PALS-type feature attributes into a Pair.
